@@ -405,52 +405,74 @@ func (c *Ctx) securityStates(rule, tname string, efd, dfd *ast.FuncDecl, rawEnc,
 		p, ok := c.apath(e)
 		return ok && p.Root == recv && lastStep(p) == "Security"
 	}
-	nilBranch, emptyFlag, emptyClears := false, false, false
-	c.walkWithIfStack(efd.Body, func(n ast.Node, ifs []*ast.IfStmt) {
-		switch x := n.(type) {
-		case *ast.IfStmt:
-			if be, ok := unparen(x.Cond).(*ast.BinaryExpr); ok && be.Op == token.EQL && isRecvSecurity(be.X) && isNilIdent(c, be.Y) && blockAlwaysReturns(x.Body) {
-				// the nil branch must not raise the flag
-				flag := false
-				ast.Inspect(x.Body, func(m ast.Node) bool {
-					if as, ok := m.(*ast.AssignStmt); ok {
-						for _, l := range as.Lhs {
-							if p, ok := c.apath(l); ok && p.Root == rawEnc && lastStep(p) == "SecurityIsEmpty" {
-								flag = true
-							}
-						}
-					}
-					return true
-				})
-				nilBranch = !flag
+	// literal helpers over the receiver's Security
+	isNilTest := func(cl condLit) int { // +1: Security == nil holds, -1: Security != nil holds
+		be, ok := unparen(cl.e).(*ast.BinaryExpr)
+		if !ok || !isRecvSecurity(be.X) || !isNilIdent(c, be.Y) {
+			return 0
+		}
+		v := 0
+		if be.Op == token.EQL {
+			v = 1
+		} else if be.Op == token.NEQ {
+			v = -1
+		}
+		if cl.neg {
+			v = -v
+		}
+		return v
+	}
+	isLenZero := func(cl condLit) bool {
+		be, ok := unparen(cl.e).(*ast.BinaryExpr)
+		if !ok || be.Op != token.EQL || cl.neg {
+			return false
+		}
+		call, ok := unparen(be.X).(*ast.CallExpr)
+		if !ok || !c.isBuiltin(call, "len") || len(call.Args) != 1 || !isRecvSecurity(call.Args[0]) {
+			return false
+		}
+		tv, ok := c.Info.Types[be.Y]
+		return ok && tv.Value != nil && tv.Value.String() == "0"
+	}
+	nilBranch, emptyFlag, emptyClears, nflag := true, false, false, 0
+	ast.Inspect(efd.Body, func(n ast.Node) bool {
+		x, ok := n.(*ast.AssignStmt)
+		if !ok {
+			return true
+		}
+		for i, l := range x.Lhs {
+			p, ok := c.apath(l)
+			if !ok || p.Root != rawEnc || i >= len(x.Rhs) {
+				continue
 			}
-		case *ast.AssignStmt:
-			for i, l := range x.Lhs {
-				p, ok := c.apath(l)
-				if !ok || p.Root != rawEnc {
-					continue
+			lits := c.literalsAt(efd, x)
+			notNil, lenZero := false, false
+			for _, cl := range lits {
+				if isNilTest(cl) == -1 {
+					notNil = true
 				}
-				inEmpty := false
-				for _, ifs1 := range ifs {
-					if be, ok := unparen(ifs1.Cond).(*ast.BinaryExpr); ok && be.Op == token.EQL {
-						if call, ok := unparen(be.X).(*ast.CallExpr); ok && c.isBuiltin(call, "len") && isRecvSecurity(call.Args[0]) {
-							if tv, ok := c.Info.Types[be.Y]; ok && tv.Value != nil && tv.Value.String() == "0" {
-								inEmpty = x.Pos() >= ifs1.Body.Pos() && x.End() <= ifs1.Body.End()
-							}
-						}
+				if isLenZero(cl) {
+					lenZero = true
+				}
+			}
+			if lastStep(p) == "SecurityIsEmpty" {
+				nflag++
+				if tv, ok := c.Info.Types[x.Rhs[i]]; ok && tv.Value != nil && tv.Value.String() == "true" {
+					if !notNil {
+						nilBranch = false // the flag can be raised for an absent security
 					}
-				}
-				if lastStep(p) == "SecurityIsEmpty" && inEmpty && i < len(x.Rhs) {
-					if tv, ok := c.Info.Types[x.Rhs[i]]; ok && tv.Value != nil && tv.Value.String() == "true" {
+					if lenZero {
 						emptyFlag = true
 					}
 				}
-				if lastStep(p) == "Security" && len(p.Steps) == 2 && inEmpty && i < len(x.Rhs) && isNilIdent(c, x.Rhs[i]) {
-					emptyClears = true
-				}
+			}
+			if lastStep(p) == "Security" && len(p.Steps) == 2 && lenZero && isNilIdent(c, x.Rhs[i]) {
+				emptyClears = true
 			}
 		}
+		return true
 	})
+	nilBranch = nilBranch && nflag > 0
 	// one fresh padded map per requirement, on both sides
 	for _, side := range []*ast.FuncDecl{efd, dfd} {
 		fresh, loops := true, 0
